@@ -273,7 +273,12 @@ def run_shard(ctx):
         if r < 0.2:         # micro-amplitude records: non-zero samples far below 1e-8 (exact zeros stay exact)
             x = x * 10 ** rng.uniform(-13, -7)
             cls += '-micro'
-        elif r < 0.3:       # narrow / unsigned integer dtypes using most of their range
+        elif r < 0.26:      # huge dynamic range inside one record (one sample 1e3..1e12 times larger than the rest)
+            x = x * 10 ** rng.uniform(-12, -3)
+            j = 0 if rng.random() < 0.6 else int(rng.integers(len(x)))
+            x[j] = rng.choice([-1.0, 1.0]) * 10 ** rng.uniform(0, 9)
+            cls += '-outlier'
+        elif r < 0.34:      # narrow / unsigned integer dtypes using most of their range
             dt_ = [np.int8, np.int16, np.int32][int(rng.integers(3))]
             ii = np.iinfo(dt_)
             xi_ = rng.integers(ii.min // 2, ii.max // 2, size=n)
